@@ -37,6 +37,24 @@ CURVES = {
 }
 
 
+# precomputed tables: curve -> {static name: ("struct", [fields]) | ("flat", [fields])}
+_DUIF = ("struct", ["ypx", "ymx", "t2d"])
+_XY = ("struct", ["x", "y"])
+_EUT = ("struct", ["e", "u", "t"])
+TABLES = {
+    "ed25519": {n: _DUIF for n in ("PRECOMP_B", "PRECOMP_B65", "PRECOMP_B130", "PRECOMP_B195")},
+    "ed448": {n: _XY for n in ("PRECOMP_B", "PRECOMP_B75", "PRECOMP_B150", "PRECOMP_B225", "PRECOMP_B300",
+                               "PRECOMP_B375")},
+    "p256": {n: _XY for n in ("PRECOMP_G", "PRECOMP_G65", "PRECOMP_G130", "PRECOMP_G195")},
+    "secp256k1": {n: _XY for n in ("PRECOMP_G", "PRECOMP_G65", "PRECOMP_G130", "PRECOMP_G195")},
+    "jq255e": dict([(n, ("flat", ["e", "u", "t"])) for n in ("PRECOMP_B", "PRECOMP_B30", "PRECOMP_B65",
+                                                               "PRECOMP_B95")] + [("PRECOMP_B130_ODD", _EUT)]),
+    "jq255s": {n: _EUT for n in ("PRECOMP_B", "PRECOMP_B65", "PRECOMP_B130", "PRECOMP_B195")},
+    "gls254": {n: ("flat", ["scaled_x", "scaled_s"]) for n in ("PRECOMP_B", "PRECOMP_B30", "PRECOMP_B65",
+                                                                 "PRECOMP_B95")},
+}
+
+
 def module_source(curve):
     d = CURVES[curve]
     F = d["F"]
@@ -48,6 +66,7 @@ def module_source(curve):
     A("    use super::*;")
     A("    use std::vec::Vec;")
     A("    use std::vec;")
+    A("    use core::convert::TryFrom;")
     A("    type F = %s;" % F)
     if d.get("decode") == "decode":
         A("    fn fe(b: &[u8]) -> F { F::decode(b).unwrap() }")
@@ -94,6 +113,19 @@ def module_source(curve):
                 A("            \"%s\" => { let Q = %s; P.%s(&Q, n as u32); }" % (fn, actor, fn))
             else:
                 A("            \"%s\" => { let Q = %s; P.%s(&Q); }" % (fn, actor, fn))
+    # scalar multiplication (C04/C10): scalar bytes follow the point coordinates
+    A("            \"mul\" => { let sc = Scalar::decode_reduce(&a[%d]); P.set_mul(&sc); }" % k)
+    A("            \"op_mul_scalar\" => { let sc = Scalar::decode_reduce(&a[%d]); P = P * sc; }" % k)
+    A("            \"mulgen\" => { let sc = Scalar::decode_reduce(&a[%d]); P.set_mulgen(&sc); }" % k)
+    A("            \"basemul\" => { P = Point::BASE; P.set_xdouble(n as u32); let kk = u64::from_le_bytes(<[u8; 8]>::try_from(&a[%d][..8]).unwrap()); P.set_mul_small(kk); }" % k)
+    A("            \"base\" => { P = Point::BASE; }")
+    for tname, (lay, fs) in TABLES.get(curve, {}).items():
+        if lay == "struct":
+            ent = ", ".join("%s[n as usize].%s.encode().to_vec()" % (tname, f) for f in fs)
+        else:
+            ent = ", ".join("%s[%d * (n as usize) + %d].encode().to_vec()" % (tname, len(fs), i)
+                            for i in range(len(fs)))
+        A("            \"table:%s\" => { return vec![%s]; }" % (tname, ent))
     A("            _ => { return vec![]; }")
     A("        }")
     A("        vec![%s]" % outs)
